@@ -19,6 +19,7 @@ func (r *Reader) readIinf(b *box) (err error) {
 	if err = r.readInfe(b); err != nil && logLevelError() {
 		logError().Object("box", b).Err(err).Send()
 	}
+	r.heic.resolve()
 
 	return b.close()
 }
